@@ -12,46 +12,43 @@ theorem inv_step_spawn (s s' : Srv) (h : Inv s) (hs : stepCore goodFacts s .runS
   · rename_i hrun
     simp only [if_true] at hs
     split at hs
-    · simp at hs
-    · rename_i hstop
-      split at hs
-      · -- cancelled: connection refused, nothing added
-        simp at hs; subst hs
-        exact { h with
-          idsLt := by intro c hc'; have := h.idsLt c hc'; simp; exact this.1
-          lstNotStarted := by simp
-          lstReturned := by simp }
-      · rename_i hcanc
-        simp at hs; subst hs
-        have hnoRet : ¬ ∃ p ∈ s.stops, p = StopPc.returned := by
-          intro ⟨p, hp, e⟩
-          have := h.canc p hp (by subst e; rfl)
-          exact hcanc this
-        constructor
-        · simp [pending_append, pending, h.wg]
-        · intro c hc; simp at hc
-          rcases hc with hc | rfl
-          · exact h.ok c hc
-          · simp [ConnOK]
-        · simp only [List.map_append, List.map_cons, List.map_nil]
-          rw [List.nodup_append]
-          refine ⟨h.ids, by simp, ?_⟩
-          intro a ha b hb
-          simp at hb; subst hb
-          simp at ha
-          obtain ⟨c, hc, rfl⟩ := ha
-          have := (h.idsLt c hc).2 (Or.inr hrun)
-          omega
-        · intro c hc; simp at hc
-          rcases hc with hc | rfl
-          · have := h.idsLt c hc; simp; exact this.1
-          · simp
-        · exact h.canc
-        · exact h.stopAt
-        · intro hex; exact absurd hex hnoRet
+    · -- cancelled: connection refused, nothing added
+      simp at hs; subst hs
+      exact { h with
+        idsLt := by intro c hc'; have := h.idsLt c hc'; simp; exact this.1
+        lstNotStarted := by simp
+        lstReturned := by simp }
+    · rename_i hcanc
+      simp at hs; subst hs
+      have hnoRet : ¬ ∃ p ∈ s.stops, p = StopPc.returned := by
+        intro ⟨p, hp, e⟩
+        have := h.canc p hp (by subst e; rfl)
+        exact hcanc this
+      constructor
+      · simp [pending_append, pending, h.wg]
+      · intro c hc; simp at hc
+        rcases hc with hc | rfl
+        · exact h.ok c hc
+        · simp [ConnOK]
+      · simp only [List.map_append, List.map_cons, List.map_nil]
+        rw [List.nodup_append]
+        refine ⟨h.ids, by simp, ?_⟩
+        intro a ha b hb
+        simp at hb; subst hb
+        simp at ha
+        obtain ⟨c, hc, rfl⟩ := ha
+        have := (h.idsLt c hc).2 (Or.inr hrun)
+        omega
+      · intro c hc; simp at hc
+        rcases hc with hc | rfl
+        · have := h.idsLt c hc; simp; exact this.1
         · simp
-        · simp
-        · exact h.rdy
+      · exact h.canc
+      · exact h.stopAt
+      · intro hex; exact absurd hex hnoRet
+      · simp
+      · simp
+      · exact h.rdy
   · simp at hs
 
 theorem mem_set_cases {α} {l : List α} {i : Nat} {v p : α} (h : p ∈ l.set i v) : p = v ∨ p ∈ l := by
